@@ -430,6 +430,18 @@ def main():
     ap.add_argument("--tier", default=os.environ.get("VERIF_TIER", "quick"))
     a = ap.parse_args()
     seed = int(os.environ.get("VERIF_SEED", "0"))
+    # watchdog: a check that does not finish is a checker error, never a silent hang
+    import threading
+
+    def _alarm():
+        sys.stdout.write(f"CHECKER-ERROR watchdog: {a.what} did not finish within the time limit\n")
+        sys.stdout.flush()
+        os._exit(3)
+
+    # a thread, not SIGALRM: native solver calls release the GIL but do not run Python signal handlers
+    _wd = threading.Timer(int(os.environ.get("VERIF_WATCHDOG_S", "1500" if a.tier == "quick" else "5400")), _alarm)
+    _wd.daemon = True
+    _wd.start()
     if a.what == "replay":
         sys.exit(replay(a.arg))
     try:
